@@ -89,10 +89,7 @@ type mnode struct {
 	UFS     *ufsFields // structured payload; when nil and HasData, Garbage is used verbatim
 	Garbage []byte
 	Inline  bool // raw leaf linked by an identity CID (the block is the link)
-	Cbor    bool // byte leaf stored under a third codec (dag-cbor byte string)
 }
-
-var cborProto = cidlink.LinkPrototype{Prefix: cid.Prefix{Version: 1, Codec: 0x71, MhType: 0x12, MhLength: 32}}
 
 var rawInlineProto = cidlink.LinkPrototype{Prefix: cid.Prefix{Version: 1, Codec: codecRaw, MhType: 0x00, MhLength: -1}}
 
@@ -106,9 +103,6 @@ func (m *mnode) store(st *Store, ls *ipld.LinkSystem) (cid.Cid, error) {
 		proto := rawProto
 		if m.Inline {
 			proto = rawInlineProto
-		}
-		if m.Cbor {
-			proto = cborProto
 		}
 		l, err := ls.Store(lc0, proto, basicnode.NewBytes(m.Raw))
 		if err != nil {
